@@ -140,7 +140,7 @@ def main():
             "enable": "cargo feature `verif-hooks` on cascette-cache and cascette-client-storage, switched on by the path dependencies in harness/Cargo.toml",
             "baseline_off_cmd": "/verif/tools/repo_tests.sh",
             "source_commits": hooks_commits,
-            "add_only": True,
+            "add_only": False,  # 0da5b95 rewrites one import line in disk_cache.rs and multi_layer.rs (cfg-switched RwLock import); everything else only adds
         },
         "engines": [
             {"name": "SEQ", "path": "harness/src/seq.rs", "serves_properties": [p for p in props if p in CHECKS and CHECKS[p][0].startswith("SEQ")], "kind_free_text": "explicit-state exploration of operation histories on the real object in lock-step with a reference model; state = history, rebuilt by replay; BFS by depth; 1-minimal counterexamples"},
